@@ -269,6 +269,12 @@ def run(ctx):
             ctx.count('composite_cases')
             with ctx.case(label=c.describe()):
                 check(ctx, G if path_mode else F, c.patterns, c.exclude, fn2, universe(ctx, alltoks, rng, path_mode, fn2))
+            if c.exclude is None and 'NEGATE' in fn2 and k % 2 == 0:
+                # an exclude= argument that is given but empty: whatever it means for inline negation, translate() and the
+                # matcher read it the same way
+                for empty in ([], '', ()):
+                    with ctx.case(label=('empty-exclude', c.describe())):
+                        check(ctx, G if path_mode else F, c.patterns, empty, fn2, universe(ctx, alltoks, rng, path_mode, fn2))
     ctx.count('random_asts', k)
     ctx.count('composite_cases', 0)
 
